@@ -32,11 +32,15 @@ type cfg struct {
 	profile  []int
 	gated    bool          // concurrency 1 and bodies that block until the end: value = starts + drops
 	slow     time.Duration // concurrency 1 and bodies that take this long (not a multiple of the interval): exact starts/drops from a reference simulation
+	stall    time.Duration // the rate function itself takes this long on its 2nd and 4th evaluation (a slow ticking goroutine)
 }
 
 func (c cfg) name() string {
 	if c.slow > 0 {
 		return fmt.Sprintf("ticker/interval=%s/length=%s/profile=%v/slow-body=%s", c.interval, c.length, c.profile, c.slow)
+	}
+	if c.stall > 0 {
+		return fmt.Sprintf("ticker/interval=%s/length=%s/profile=%v/rate-function-stalls=%s", c.interval, c.length, c.profile, c.stall)
 	}
 	return fmt.Sprintf("ticker/interval=%s/length=%s/profile=%v/gated=%v", c.interval, c.length, c.profile, c.gated)
 }
@@ -72,6 +76,9 @@ func scenario(c cfg) vrt.Scenario {
 			v := c.profile[k%len(c.profile)]
 			k++
 			vrt.LogQuiet(fmt.Sprintf("eval %d %d", vrt.Clock(), v))
+			if c.stall > 0 && (k == 2 || k == 4) {
+				vtime.Sleep(c.stall)
+			}
 			return v
 		}
 		conc := 1
@@ -137,7 +144,7 @@ func scenario(c cfg) vrt.Scenario {
 		if w.started+dropped > sum {
 			o.Fail("C09/value-is-request", "more-load-than-profile", fmt.Sprintf("started %d + dropped %d exceeds the sum of evaluated values %d", w.started, dropped, sum))
 		}
-		if o.Cost == 0 {
+		if o.Cost == 0 && c.stall == 0 {
 			want := 1 + int((c.length-1)/c.interval) // ticks strictly before the deadline
 			tie := c.length%c.interval == 0          // a tick due exactly at the deadline may or may not be served
 			if evals != want && !(tie && evals == want+1) {
@@ -216,6 +223,12 @@ func scenariosFor(tier string) []vrt.Scenario {
 	}
 	for _, p := range [][]int{{3, 0, 0, 0, 0}, {2, 0, 1, 3}} {
 		s := scenario(cfg{interval: 100 * ms, length: 450 * ms, profile: p, slow: 130 * ms})
+		s.Bound = b
+		out = append(out, s)
+	}
+	{
+		// a stalling rate function: ticks are served late, but never more often than one per interval
+		s := scenario(cfg{interval: 100 * ms, length: 950 * ms, profile: []int{1}, stall: 60 * ms})
 		s.Bound = b
 		out = append(out, s)
 	}
